@@ -35,7 +35,7 @@ def universe():
     found = {}
     for m in pkgutil.walk_packages(pkg.__path__, pkg.__name__ + "."):
         mod = importlib.import_module(m.name)
-        for k, v in vars(mod).items():
+        for k, v in list(vars(mod).items()):
             if isinstance(v, type) and issubclass(v, Aggregate) and v.__module__ == mod.__name__:
                 found[(v.__module__, v.__name__)] = v
     out = {}
@@ -71,7 +71,7 @@ def decl(cls):
 
     out = {}
     for base in reversed(cls.__mro__):
-        for k, v in vars(base).items():
+        for k, v in list(vars(base).items()):
             if isinstance(v, Types.Unsupported):
                 out[k] = ("unsupported", v)
             elif isinstance(v, Types.ListAggregate):
